@@ -14,7 +14,7 @@ mon_stats g_mon;
 int g_mon_enabled = 1;
 int g_mon_strict_info = 0;
 int g_mon_i3_strict = 0;      /* C03 only: report I3 violations (other properties just count them) */
-int g_yield_prune_inner = 0; /* case parameter: also yield inside one interchange of pxgstrf_pruneL */
+int g_yield_prune_inner = 1; /* yield inside one interchange of pxgstrf_pruneL (case parameter yield_prune_inner=0 switches it off) */
 
 static int      s_mode = SCHED_NONE, s_P = 1, s_strategy = 0, s_param = 0, s_delay_us = 100;
 static uint64_t s_seed = 1, s_rng;
@@ -366,7 +366,7 @@ void ctl_thread_start(long pnum, void *arg)
     tl_pnum = pnum;
     __atomic_add_fetch(&g_mon.thread_starts, 1, __ATOMIC_SEQ_CST);
     if (s_mode != SCHED_CONTROLLED || !active || pnum < 0 || pnum >= MAXP) return;
-    pthread_mutex_lock(&cm);
+    HX_LOCK(&cm);
     reg[pnum] = 1; alive[pnum] = 1; nreg++; nalive++;
     if (nreg == s_P) { cur = pick_next(-1, 0); pthread_cond_signal(&cv[cur]); }
     wait_token((int)pnum);
@@ -377,7 +377,7 @@ void ctl_thread_exit(long pnum, void *arg)
     (void)arg;
     __atomic_add_fetch(&g_mon.thread_exits, 1, __ATOMIC_SEQ_CST);
     if (s_mode != SCHED_CONTROLLED || !active || pnum < 0 || pnum >= MAXP) return;
-    pthread_mutex_lock(&cm);
+    HX_LOCK(&cm);
     alive[pnum] = 0; nalive--;
     if (nalive > 0) { cur = pick_next(-1, 0); pthread_cond_signal(&cv[cur]); } else cur = -1;
     pthread_mutex_unlock(&cm);
@@ -409,7 +409,7 @@ void slu_mt_verif_event(int kind, long pnum, long a, long b, long c, const void 
         if (spinning) { g_mon.spins++; blocked[pnum] = 1; }
         else if (kind != SLUV_SCHED_ENTER) { idle_rounds = 0; for (int t = 0; t < s_P; ++t) blocked[t] = 0; }
         g_mon.yields++;
-        pthread_mutex_lock(&cm);
+        HX_LOCK(&cm);
         ++ev_index;
         if (s_strategy == 2) for (int i = 0; i < nchg; ++i) if (chg_at[i] == ev_index) { int lowest = prio[0]; for (int t = 0; t < s_P; ++t) if (prio[t] < lowest) lowest = prio[t]; prio[pnum] = lowest - 1; }
         int nxt = pick_next((int)pnum, spinning);
@@ -418,7 +418,7 @@ void slu_mt_verif_event(int kind, long pnum, long a, long b, long c, const void 
         return;
     }
     /* free / none mode (or events from the master thread before workers exist) */
-    if (g_mon_enabled) { pthread_mutex_lock(&mm); mon_event(kind, pnum, a, b, c, ctx); pthread_mutex_unlock(&mm); }
+    if (g_mon_enabled) { HX_LOCK(&mm); mon_event(kind, pnum, a, b, c, ctx); pthread_mutex_unlock(&mm); }
     if (kind == SLUV_AWAIT_SPIN) __atomic_add_fetch(&g_mon.spins, 1, __ATOMIC_RELAXED);
     if (s_mode == SCHED_FREE && active && is_yield_kind(kind) && !(kind == SLUV_PRUNE_STEP && b == 3 && !g_yield_prune_inner)) {
         if (!tl_rng) tl_rng = s_seed * 0x2545F4914F6CDD1Dull + (uint64_t)(pnum + 2) * 0x9E3779B97F4A7C15ull + 1;
@@ -433,6 +433,19 @@ void slu_mt_verif_event(int kind, long pnum, long a, long b, long c, const void 
             }
         }
     }
+}
+
+/* called from the pthread_mutex_lock wrapper when a library mutex is busy */
+int ctl_mutex_wait_step(void)
+{
+    long pnum = tl_pnum;
+    if (!(s_mode == SCHED_CONTROLLED && active && pnum >= 0 && pnum < MAXP && reg[pnum])) return 0;
+    g_mon.spins++; g_mon.mutex_waits++; blocked[pnum] = 1;
+    HX_LOCK(&cm);
+    int nxt = pick_next((int)pnum, 1);
+    if (nxt >= 0 && nxt != pnum) { g_mon.switches++; cur = nxt; pthread_cond_signal(&cv[nxt]); wait_token((int)pnum); }
+    pthread_mutex_unlock(&cm);
+    return 1;
 }
 
 void sched_begin_factor(int P)
